@@ -325,7 +325,7 @@ func genBatch(t *rapid.T, s *schema, o *WorldOpts) []Item {
 	explicit(0, 3, "nhead")
 	var n int
 	if rapid.IntRange(0, 99).Draw(t, "huge") < o.HugePct {
-		n = rapid.SampledFrom([]int{1019, 1023, 1024, 1025, 1030, 1100, 2047, 2048, 2049, 2100}).Draw(t, "nhuge")
+		n = rapid.SampledFrom([]int{1019, 1023, 1024, 1024, 1024, 1025, 1030, 1100, 2047, 2048, 2048, 2049, 2100}).Draw(t, "nhuge")
 	} else {
 		n = rapid.SampledFrom([]int{120, 125, 126, 127, 128, 129, 130, 140, 250, 254, 255, 256, 257, 262}).Draw(t, "nblock")
 	}
